@@ -281,12 +281,34 @@ def apiPublish (c : Cl) (call : String) (topic : Bytes) (qos : UInt8) (retain : 
     | some id => c.apiPublishRaw call Gen.TIT_REGISTERED id qos retain payload
     | none => c.emit (.ret call .notRegistered)
 
-def apiPing (c : Cl) (call : String) (keepalive : Bool) : Cl :=
+/-- the PINGREQ exchange in progress, if any (`GetByType(PINGREQ)`: a finished one has left the slot) -/
+def pingInProgress (c : Cl) : Option Tx :=
+  match c.slotPing.bind c.getTx with
+  | some t => (match t.kind with
+    | .ping _ => if t.done then none else some t
+    | _ => none)
+  | none => none
+
+/-- a new PINGREQ exchange -/
+def startPing (c : Cl) (call : String) (keepalive : Bool) : Cl :=
   let (id, c) := c.newTx (.ping keepalive) .ping
   let c := (c.store .ping id).proceed id (.ping keepalive) (.pingreq [])
   let (c, ok) := c.send (.pingreq [])
   let c := if ok then c else c.finishTx id .closed
   { c with waits := c.waits ++ [{ call := call, tx := id, kind := .plain }] }
+
+/-- a ping requested while another one waits for its PINGRESP sends its PINGREQ and joins that exchange;
+    when it is the application that joins, the exchange is no longer the keep-alive's to stop -/
+def joinPing (c : Cl) (call : String) (keepalive : Bool) (t : Tx) : Cl :=
+  let c := if keepalive then c else c.setTx { t with kind := .ping false }
+  let (c, ok) := c.send (.pingreq [])
+  let c := if ok then c else c.finishTx t.id .closed
+  { c with waits := c.waits ++ [{ call := call, tx := t.id, kind := .plain }] }
+
+def apiPing (c : Cl) (call : String) (keepalive : Bool) : Cl :=
+  match c.pingInProgress with
+  | some t => c.joinPing call keepalive t
+  | none => c.startPing call keepalive
 
 /-- `startSleep`: the transaction's own state is left as it is -/
 def startSleep (c : Cl) (id : Nat) : Cl :=
